@@ -46,7 +46,7 @@ func scenC04(r *Run, job *Job) {
 	for i := 0; i < nInv; i++ {
 		tr := ""
 		if t.Chance(2, 3) {
-			tr = fmt.Sprintf("Root=1-5b3cc918-%024d;Parent=c88d77b0aef840e9;Sampled=%d", i+1, t.Draw(2))
+			tr = DrawTrace(t, i+1)
 		}
 		e.Plan = append(e.Plan, InvSpec{Payload: Tagged(fmt.Sprintf("ev%d", i+1), 8+t.Draw(64)), Trace: tr})
 	}
